@@ -462,6 +462,9 @@ func decodeOps(s string) []histOp {
 	}
 	for _, p := range strings.Split(s, ";") {
 		f := strings.Split(p, "|")
+		if len(f) != 4 {
+			return nil // not an encoded history (a directed-search seed of another kind)
+		}
 		var h int
 		fmt.Sscan(f[1], &h)
 		ops = append(ops, histOp{f[0], h, unhx(f[2]), unhx(f[3])})
